@@ -83,7 +83,7 @@ class Job:
                  kf=(), symbolic=(), bounds="", export_local=True,
                  model=None, src_defines=None, leak=False, layer="l0",
                  object_bits=None, fsa=None, gen_body=None, common_fp=True,
-                 native=None, extra_harness=(), export_extra=()):
+                 native=None, extra_harness=(), export_extra=(), cflags=()):
         self.name = name
         self.harness = harness            # relative to /verif/harness
         self.sources = list(sources)      # relative to /repo
@@ -116,6 +116,7 @@ class Job:
         # named here; two struct sources with equally named statics (remove_node in list.c and bst.c) cannot
         # both be exported in one link
         self.export_extra = list(export_extra)
+        self.cflags = list(cflags)            # extra compiler flags for repo sources, harness and native build
 
 
 # ---------------------------------------------------------------------------
@@ -175,9 +176,9 @@ _obj_lock = threading.Lock()
 _obj_cache = {}
 
 
-def compile_repo_source(work, src, defines, export_local):
+def compile_repo_source(work, src, defines, export_local, cflags=()):
     """goto-cc one /repo source; cached per (src, defines, export_local) in this run"""
-    key = (src, tuple(sorted(defines.items())), export_local)
+    key = (src, tuple(sorted(defines.items())), export_local, tuple(cflags))
     with _obj_lock:
         ent = _obj_cache.get(key)
         if ent is None:
@@ -199,6 +200,7 @@ def compile_repo_source(work, src, defines, export_local):
             cmd += ["-I", os.path.join(REPO, d)]
         if export_local:
             cmd.append("--export-file-local-symbols")
+        cmd += list(cflags)
         cmd += ["-c", os.path.join(REPO, src), "-o", out]
         rc, o, e, to, _ = run(cmd, timeout=120)
         if rc != 0:
@@ -221,7 +223,8 @@ def build_job(work, job, variant_defs, tag):
     jd = os.path.join(work, "jobs", re.sub(r"[^A-Za-z0-9_.-]", "_", job.name) + "." + tag)
     os.makedirs(jd, exist_ok=True)
     objs = [compile_repo_source(work, s, job.src_defines,
-                                job.export_local and (s.startswith("Lib/core/") or s in job.export_extra))
+                                job.export_local and (s.startswith("Lib/core/") or s in job.export_extra),
+                                job.cflags)
             for s in job.sources]
     # harness (+ model)
     hdefs = dict(job.defines)
@@ -244,6 +247,7 @@ def build_job(work, job, variant_defs, tag):
             cmd += ["-I", os.path.join(REPO, d)]
         if job.export_local:
             cmd.append("--export-file-local-symbols")
+        cmd += job.cflags
         cmd += ["-c", hs, "-o", out]
         rc, o, e, to, _ = run(cmd, timeout=120)
         if rc != 0:
@@ -584,6 +588,7 @@ def native_replay(work, job, rec, fail):
         cmd.append("-D%s=%s" % (k, v) if v is not None else "-D" + k)
     for d in INC_DIRS:
         cmd += ["-I", os.path.join(REPO, d)]
+    cmd += job.cflags
     cmd += [os.path.join(VERIF, "harness", job.harness)]
     cmd += [os.path.join(VERIF, "harness", x) for x in job.extra_harness]
     cmd += [os.path.join(VERIF, "harness", "common", "vf_native.c")]
